@@ -19,7 +19,7 @@ import (
 func init() {
 	Register(&Scenario{
 		Prop: "C11", Run: scenarioC11, QuickRuns: 12000, ThoroughRuns: 1500000, Level: "exploration",
-		Rule:       "one run = a seeded evolving world (both executors); (a) history-dependent half: after construction and after every epoch Organism.Phenotype() of every organism is compared with the reference expression of that organism's *current* genome (a phenotype cached before the last mutation shows here); (b) genomes taken from the run, the shipped modular genome and generated modular genomes are expressed and compared node by node, link by link (pointer-consistent incoming/outgoing lists), control node by control node, and through the whole gonum graph view over all ordered pairs of present ids plus absent ones. A case is one compared network; non-trivial when the genome has a disabled gene, a recurrent gene or a module; distinct by genome shape hash",
+		Rule:       "one run = a seeded evolving world (both executors); (a) history-dependent half: after construction and after every epoch Organism.Phenotype() of every organism is compared with the reference expression of that organism's *current* genome (a phenotype cached before the last mutation shows here), after a caller's own mutation followed by UpdatePhenotype(), and after an expressed organism object received another organism's binary form through UnmarshalBinary(); (b) genomes taken from the run, the shipped modular genome and generated modular genomes (modules sharing inputs, taking hidden nodes as inputs, feeding their output back as an input) are expressed and compared node by node, link by link (pointer-consistent incoming/outgoing lists), control node by control node, and through the whole gonum graph view over all ordered pairs of present ids plus absent ones. A case is one compared network; non-trivial when the genome has a disabled gene, a recurrent gene or a module; distinct by genome shape hash",
 		RealParts:  []string{"Genome.Genesis, Organism.Phenotype / phenotype caching, Network graph adapters (Node, Nodes, From, To, Edge, WeightedEdge, Weight, HasEdgeFromTo, HasEdgeBetween), NodeCount / LinkCount / Complexity", "the epochs and mutators that create and modify the organisms"},
 		StubParts:  []string{"fitness assignment", "goroutine choice in parallel worlds"},
 		Assumes:    []string{"where several enabled genes join the same ordered node pair (recurrent and non-recurrent variant) the graph view may report either link's weight"},
@@ -35,7 +35,7 @@ func init() {
 	})
 	Register(&Scenario{
 		Prop: "C13", Run: scenarioC13, QuickRuns: 30000, ThoroughRuns: 4000000, Level: "exploration",
-		Rule:       "one run = networks (feed-forward, recurrent, self-loops) expressed from genomes of a seeded evolving world; each is a stateful node: a tape-drawn activation history (sensor loads, Activate, ActivateSteps with too few steps so that the wave is cut by an error, ForwardSteps, RecursiveSteps, Relax, depth queries incl. capped ones) is followed by Flush - a restart that keeps only durable state (topology, weights) - and then a tape-drawn sequence whose every result, error and output vector must be bit-identical to the same sequence on a fresh instance. Standard network and fast solver. A case is one (network, history, sequence); non-trivial when the network has a recurrent link or a cycle; distinct by (genome shape hash, history hash)",
+		Rule:       "one run = networks (feed-forward, recurrent, self-loops) expressed from genomes of a seeded evolving world; each is a stateful node: a tape-drawn activation history (sensor loads - also with one value per sensor, bias values supplied by the caller, or more values than sensors -, Activate, ActivateSteps with too few steps so that the wave is cut by an error, ForwardSteps, RecursiveSteps, Relax, depth queries incl. capped ones) is followed by Flush - a restart that keeps only durable state (topology, weights) - and then a tape-drawn sequence whose every result, error and output vector must be bit-identical to the same sequence on a fresh instance. Standard network and fast solver. A case is one (network, history, sequence); non-trivial when the network has a recurrent link or a cycle; distinct by (genome shape hash, history hash)",
 		RealParts:  []string{"Network.Flush / NNode.Flushback, FastModularNetworkSolver.Flush and all activation entry points of both solvers"},
 		StubParts:  []string{"fitness assignment"},
 		FaultKinds: []string{"fault.activation_cut_short", "fault.capped_depth_query"},
